@@ -201,6 +201,26 @@ def tol_for(d, *arrays):
 
 # ============================================================================= quara access helpers
 @functools.lru_cache(maxsize=None)
+def _native_convert(t):
+    """(var -> native form, native form -> var) module-level converters named in the property's mechanism."""
+    if t == "state":
+        from quara.objects.state import convert_var_to_vec, convert_vec_to_var
+
+        return convert_var_to_vec, convert_vec_to_var
+    if t == "povm":
+        from quara.objects.povm import convert_var_to_vecs, convert_vecs_to_var
+
+        return convert_var_to_vecs, convert_vecs_to_var
+    if t == "gate":
+        from quara.objects.gate import convert_hs_to_var, convert_var_to_hs
+
+        return convert_var_to_hs, convert_hs_to_var
+    from quara.objects.mprocess import convert_hss_to_var, convert_var_to_hss
+
+    return convert_var_to_hss, convert_hss_to_var
+
+
+@functools.lru_cache(maxsize=None)
 def c_sys_cached(shape):
     return build.c_sys_for(shape)
 
@@ -637,6 +657,35 @@ def check_stacked_var(case, ctx):
     s2v(x_in)
     ctx.close(v_in, var, 0.0, "conversion_keeps_input:var")
     ctx.close(x_in, x_arb, 0.0, "conversion_keeps_input:stacked")
+
+    # the module-level converters between the variable vector and the native form (vec / list of vecs / HS / list of HS):
+    # same correspondence, and the caller's arguments (in particular a list it keeps using) are left as they were
+    to_nat, to_var = _native_convert(t)
+
+    def native(x):
+        a = reshape_like_object(t, n, m, np.array(x, dtype=float))
+        return [np.array(e, copy=True) for e in a] if t in ("povm", "mprocess") else np.array(a, copy=True)
+
+    def flat(a):
+        return np.concatenate([np.asarray(e, dtype=float).reshape(-1) for e in a]) if isinstance(a, (list, tuple)) else np.asarray(a, dtype=float).reshape(-1)
+
+    for tag, x_src in (("on_constraint", x_ok), ("arbitrary", x_arb)):
+        nat = native(x_src)
+        keep = native(x_src)
+        v1 = to_var(c_sys, nat, on_para_eq_constraint=flag)
+        same = (len(nat) == len(keep) and all(np.array_equal(a, b) for a, b in zip(nat, keep))) if isinstance(keep, list) else np.array_equal(nat, keep)
+        ctx.check(same, "native_to_var_keeps_input", lambda: f"{t} flag={flag} {tag}: the caller's native data changed (len {len(nat)} vs {len(keep)})")
+        if form(v1, nv, "native_to_var:form"):
+            ctx.close(v1, np.asarray(x_src, dtype=float)[free], tol_free, "native_to_var")
+            v2 = to_var(c_sys, nat, on_para_eq_constraint=flag)
+            ctx.check(isinstance(v2, np.ndarray) and v2.shape == v1.shape and np.array_equal(v1, v2), "native_to_var_repeatable",
+                      lambda: f"{t} flag={flag} {tag}: second conversion of the same data gives shape {getattr(v2, 'shape', None)}")
+    v_keep = var.copy()
+    back_nat = to_nat(c_sys, v_keep, on_para_eq_constraint=flag)
+    ctx.close(v_keep, var, 0.0, "var_to_native_keeps_input")
+    fb = flat(back_nat)
+    if ctx.check(fb.shape == (L,), "var_to_native:form", lambda: f"{fb.shape} expected ({L},)"):
+        compare_stacked(ctx, cfg, fb, expected, "var_to_native", tol)
 
 
 # ============================================================================= facet 4: index maps (exhaustive)
